@@ -127,6 +127,8 @@ def solve_lp(
     # Extract LP coefficients (use cache if available)
     if problem._lp_cache is not None:
         lp_data = problem._lp_cache
+        # Bounds are mutable attributes of the variables: refresh them on every solve
+        lp_data.bounds = LinearProgramExtractor().extract_bounds(variables)
     else:
         extractor = LinearProgramExtractor()
         try:
